@@ -26,7 +26,7 @@ SpecBytes(r) == CASE r.vec.kind = "packet"   -> Encode(KeyR(r), r.vec.value)
                   [] r.vec.kind = "overlong" -> r.vec.value.raw
 
 ClauseNames(kind) ==
-    CASE kind = "packet"   -> {"Bind_InputIsSpecEncoding", "C09_EncodesToLayout", "C09_IdMatches", "C09_DecodesBack", "C09_ConsumesAll", "C09_DecodeIgnoresSegmentation"}
+    CASE kind = "packet"   -> {"Bind_InputIsSpecEncoding", "C09_EncodesToLayout", "C09_IdMatches", "C09_DecodesBack", "C09_ConsumesAll", "C09_DecodeIgnoresSegmentation", "C09_FrameLayout"}
       [] kind = "varint"   -> {"Bind_InputIsSpecEncoding", "C09_VarIntLayout", "C09_VarIntRoundTrip", "C09_DecodeIgnoresSegmentation"}
       [] kind = "varlong"  -> {"Bind_InputIsSpecEncoding", "C09_VarLongLayout", "C09_VarLongRoundTrip", "C09_DecodeIgnoresSegmentation"}
       [] kind = "reject"   -> {"Bind_InputIsSpecEncoding", "C09_OrdinalRejected", "C09_DecodeIgnoresSegmentation"}
@@ -52,6 +52,9 @@ Clause(cl, r, bs, hx) ==
       [] cl = "C09_DecodesBack"      -> LET d == Decode(KeyR(r), bs) IN
                                         r.decoded_ok /\ ~r.panic /\ d.ok /\ r.decoded = d.v /\ r.decoded = r.vec.value /\ r.decoded_value_roundtrip
       \* ... and leaves nothing unread (judged where decoding succeeded at all)
+      \* the whole frame write_packet sends: VarInt length of (packet id + body), the packet id as VarInt, the body
+      [] cl = "C09_FrameLayout"      -> LET idb == EncVarInt(PacketOf(KeyR(r)).id) IN
+                                        ~r.panic /\ r.framed = HexOf(EncVarInt(Len(idb) + Len(bs)) \o idb \o bs) /\ r.framed_len_reported
       [] cl = "C09_ConsumesAll"      -> r.decoded_ok => r.consumed_all
       \* decoding "those bytes" does not depend on the pieces in which the source delivers them (one byte at a time; irregular pieces):
       \* same acceptance, same value, same number of bytes consumed as from one contiguous buffer
